@@ -124,6 +124,170 @@ def install_lock_seam(pkg_dir: str) -> None:
 
 
 # ---------------------------------------------------------------------------------------------
+# instrumentation: sys.monitoring *local* events on every code object of the package
+# ---------------------------------------------------------------------------------------------
+# Local events are uniform from the first execution of a code object (sys.settrace opcode events on
+# 3.12 are not) and cost nothing outside the package.  They are armed once per process tree (the
+# state survives fork); the callbacks are inert unless a Scheduler / AbortInjector is active.
+
+_instrumented: set = set()
+_callbacks_registered = False
+_import_code = None
+HOOK = None  # optional callable(code, where, kind) used by single-threaded injectors (C15)
+
+
+def _package_codes(pkg_dir: str) -> list:
+    import types
+
+    seen: set = set()
+    out: list = []
+
+    def add_code(code) -> None:
+        if id(code) in seen:
+            return
+        seen.add(id(code))
+        if code.co_filename.startswith(pkg_dir):
+            out.append(code)
+        for c in code.co_consts:
+            if isinstance(c, types.CodeType):
+                add_code(c)
+
+    def visit(obj, depth: int = 0) -> None:
+        if depth > 4 or id(obj) in seen:
+            return
+        if isinstance(obj, types.FunctionType):
+            add_code(obj.__code__)
+            return
+        if isinstance(obj, (staticmethod, classmethod)):
+            visit(obj.__func__, depth + 1)
+            return
+        if isinstance(obj, property):
+            for f in (obj.fget, obj.fset, obj.fdel):
+                if f is not None:
+                    visit(f, depth + 1)
+            return
+        if isinstance(obj, type):
+            seen.add(id(obj))
+            for v in list(vars(obj).values()):
+                visit(v, depth + 1)
+            return
+        func = getattr(obj, "__wrapped__", None) or getattr(obj, "func", None)
+        if isinstance(func, types.FunctionType):
+            visit(func, depth + 1)
+
+    for name, mod in sorted(sys.modules.items()):
+        f = getattr(mod, "__file__", None)
+        if not f or not f.startswith(pkg_dir):
+            continue
+        for v in list(vars(mod).values()):
+            visit(v)
+    return out
+
+
+def _on_line(code, line):
+    s = ACTIVE
+    if s is not None:
+        if not s.opcode:
+            tid = s.ident2tid.get(_get_ident())
+            if tid is not None:
+                s.yield_point(tid, code, line, "line")
+    elif HOOK is not None:
+        HOOK(code, line, "line")
+    return None
+
+
+def _on_instruction(code, offset):
+    s = ACTIVE
+    if s is not None and s.opcode:
+        tid = s.ident2tid.get(_get_ident())
+        if tid is not None:
+            s.yield_point(tid, code, offset, "opcode")
+    return None
+
+
+def _on_return(code, offset, retval):
+    s = ACTIVE
+    if code is _import_code:
+        if s is not None:
+            tid = s.ident2tid.get(_get_ident())
+            if tid is not None and s.import_depth[tid] > 0:
+                s.import_depth[tid] -= 1
+                if s.import_depth[tid] == 0:
+                    instrument_package(s.pkg_dir, rescan=True)  # code of a lazily imported module
+        return None
+    if s is not None:
+        tid = s.ident2tid.get(_get_ident())
+        if tid is not None:
+            s.yield_point(tid, code, offset, "return")
+    elif HOOK is not None:
+        HOOK(code, offset, "return")
+    return None
+
+
+def _on_unwind(code, offset, exc):  # global event; cannot be disabled
+    s = ACTIVE
+    if s is None:
+        return None
+    if code is _import_code:
+        tid = s.ident2tid.get(_get_ident())
+        if tid is not None and s.import_depth[tid] > 0:
+            s.import_depth[tid] -= 1
+    elif code.co_filename.startswith(s.pkg_dir):
+        tid = s.ident2tid.get(_get_ident())
+        if tid is not None:
+            s.yield_point(tid, code, offset, "unwind")
+    return None
+
+
+def _on_start(code, offset):
+    s = ACTIVE
+    if s is not None and code is _import_code:
+        tid = s.ident2tid.get(_get_ident())
+        if tid is not None:
+            s.import_depth[tid] += 1
+    return None
+
+
+def instrument_package(pkg_dir: str, rescan: bool = False) -> int:
+    """Arm local events on every not-yet-instrumented code object of the package."""
+    global _callbacks_registered, _import_code
+    if _callbacks_registered and _instrumented and not rescan:
+        return 0
+    mon = sys.monitoring
+    ev = mon.events
+    if not _callbacks_registered:
+        if mon.get_tool(MON_TOOL) is None:
+            mon.use_tool_id(MON_TOOL, "schwifty-sim")
+        mon.register_callback(MON_TOOL, ev.LINE, _on_line)
+        mon.register_callback(MON_TOOL, ev.INSTRUCTION, _on_instruction)
+        mon.register_callback(MON_TOOL, ev.PY_RETURN, _on_return)
+        mon.register_callback(MON_TOOL, ev.PY_YIELD, _on_return)
+        mon.register_callback(MON_TOOL, ev.PY_UNWIND, _on_unwind)
+        mon.register_callback(MON_TOOL, ev.PY_START, _on_start)
+        mon.set_events(MON_TOOL, ev.PY_UNWIND)
+        import importlib._bootstrap as _ib
+
+        _import_code = _ib._find_and_load.__code__
+        mon.set_local_events(MON_TOOL, _import_code, ev.PY_START | ev.PY_RETURN)
+        _callbacks_registered = True
+    n = 0
+    for code in _package_codes(pkg_dir):
+        if code not in _instrumented:
+            mon.set_local_events(MON_TOOL, code, ev.LINE | ev.PY_RETURN | ev.PY_YIELD)
+            _instrumented.add(code)
+            n += 1
+    return n
+
+
+def set_opcode_events(on: bool) -> None:
+    mon = sys.monitoring
+    ev = mon.events
+    base = ev.LINE | ev.PY_RETURN | ev.PY_YIELD
+    for code in _instrumented:
+        mon.set_local_events(MON_TOOL, code, base | ev.INSTRUCTION if on else base)
+
+
+# ---------------------------------------------------------------------------------------------
 # policies
 # ---------------------------------------------------------------------------------------------
 
@@ -356,73 +520,15 @@ class Scheduler:
         self._close_segment("f")
         self.done_gate.release()
 
-    # -- tracing (sys.monitoring; uniform from the first execution of every code object) --------
+    # -- tracing --------------------------------------------------------------------------------
     def _install_monitoring(self) -> None:
-        mon = sys.monitoring
-        ev = mon.events
-        pkg_dir = self.pkg_dir
-        ident2tid = self.ident2tid
-        depth = self.import_depth
-        yp = self.yield_point
-        DISABLE = mon.DISABLE
-        step_name = "opcode" if self.opcode else "line"
-
-        def on_step(code, where):
-            if not code.co_filename.startswith(pkg_dir):
-                return DISABLE
-            tid = ident2tid.get(_get_ident())
-            if tid is not None:
-                yp(tid, code, where, step_name)
-            return None
-
-        def on_return(code, offset, retval):
-            if code.co_filename.startswith(pkg_dir):
-                tid = ident2tid.get(_get_ident())
-                if tid is not None:
-                    yp(tid, code, offset, "return")
-                return None
-            if code.co_name == "_find_and_load" and code.co_filename.startswith("<frozen importlib"):
-                tid = ident2tid.get(_get_ident())
-                if tid is not None and depth[tid] > 0:
-                    depth[tid] -= 1
-                return None
-            return DISABLE
-
-        def on_unwind(code, offset, exc):  # may not be disabled
-            if code.co_filename.startswith(pkg_dir):
-                tid = ident2tid.get(_get_ident())
-                if tid is not None:
-                    yp(tid, code, offset, "unwind")
-            elif code.co_name == "_find_and_load" and code.co_filename.startswith("<frozen importlib"):
-                tid = ident2tid.get(_get_ident())
-                if tid is not None and depth[tid] > 0:
-                    depth[tid] -= 1
-            return None
-
-        def on_start(code, offset):
-            if code.co_name == "_find_and_load" and code.co_filename.startswith("<frozen importlib"):
-                tid = ident2tid.get(_get_ident())
-                if tid is not None:
-                    depth[tid] += 1
-                return None
-            return DISABLE
-
-        if mon.get_tool(MON_TOOL) is None:
-            mon.use_tool_id(MON_TOOL, "schwifty-sim")
-        step_event = ev.INSTRUCTION if self.opcode else ev.LINE
-        mon.register_callback(MON_TOOL, step_event, on_step)
-        mon.register_callback(MON_TOOL, ev.PY_RETURN, on_return)
-        mon.register_callback(MON_TOOL, ev.PY_YIELD, on_return)
-        mon.register_callback(MON_TOOL, ev.PY_UNWIND, on_unwind)
-        mon.register_callback(MON_TOOL, ev.PY_START, on_start)
-        mon.set_events(MON_TOOL, step_event | ev.PY_RETURN | ev.PY_YIELD | ev.PY_UNWIND | ev.PY_START)
+        instrument_package(self.pkg_dir)
+        if self.opcode:
+            set_opcode_events(True)
 
     def _remove_monitoring(self) -> None:
-        mon = sys.monitoring
-        ev = mon.events
-        mon.set_events(MON_TOOL, 0)
-        for e in (ev.INSTRUCTION, ev.LINE, ev.PY_RETURN, ev.PY_YIELD, ev.PY_UNWIND, ev.PY_START):
-            mon.register_callback(MON_TOOL, e, None)
+        if self.opcode:
+            set_opcode_events(False)
 
     def _thread_main(self, tid: int, fn) -> None:
         self.ident2tid[_get_ident()] = tid
